@@ -132,6 +132,7 @@ class Executor:
     if s.spec and s.spec_env is not None and n in s.spec_env: yield st,s.spec_env[n]; return
     g=s.lookup_global(n)
     if g is None and not s.spec and n in (getattr(getattr(s,'contract',None),'opaque_methods',None) or {}): g=Cls(n)
+    if g is None and not s.spec and n in (getattr(getattr(s,'contract',None),'class_predicates',None) or {}): g=Cls(n)
     if g is None:
       if s.spec: raise ToolError(f"unbound name {n} in contract expression")
       raise Unsupported(f"global name {n} is not modelled (imported module / unknown object)")
@@ -481,7 +482,7 @@ class Executor:
         yield st,B(same if op is ast.Eq else z3.Not(same)); return
       if isinstance(a,S) and isinstance(b,S) and a.py is not None and b.py is not None:
         yield st,B((a.py==b.py)==(op is ast.Eq)); return
-      if isinstance(a,Opq) and isinstance(b,Opq) and (a.kind==b.kind or 'obj' in (a.kind,b.kind)) and a.t.sort()==b.t.sort():
+      if isinstance(a,Opq) and isinstance(b,Opq) and z3.is_expr(a.t) and z3.is_expr(b.t) and a.t.sort()==b.t.sort():      # kinds are labels; objects compare by identity
         yield st,B((a.t==b.t) if op is ast.Eq else (a.t!=b.t)); return
       la=s.seq_items(a,st); lb=s.seq_items(b,st)
       if la is not None and lb is not None and type(a)==type(b):
@@ -516,7 +517,7 @@ class Executor:
     if isinstance(a,Cls) and isinstance(b,Cls): return z3.BoolVal(a.name==b.name)
     if isinstance(a,B) and isinstance(b,B): return a.t==b.t
     if isinstance(a,Opq) and isinstance(b,Opq) and a.kind==b.kind: return a.t==b.t
-    if isinstance(a,Opq) and isinstance(b,Opq) and 'obj' in (a.kind,b.kind) and z3.is_expr(a.t) and z3.is_expr(b.t) and a.t.sort()==b.t.sort(): return a.t==b.t
+    if isinstance(a,Opq) and isinstance(b,Opq) and z3.is_expr(a.t) and z3.is_expr(b.t) and a.t.sort()==b.t.sort(): return a.t==b.t
     if type(a)!=type(b): return z3.BoolVal(False)
     return None
 
@@ -1382,6 +1383,13 @@ def _bi_int(s,f,args,kw,st):
 def _bi_isinstance(s,f,args,kw,st):
   v,c=args
   names=[x.name for x in c.items] if isinstance(c,Tup) else [c.name]
+  cp=getattr(getattr(s,'contract',None),'class_predicates',None)
+  if cp and isinstance(v,Opq) and all(nm in cp for nm in names):
+    # class membership of an opaque framework object: the pure predicate the contract names for that class (assumption: classes of objects do not change)
+    ts=[]
+    for nm in names:
+      r=SPEC_FUNS[cp[nm]](s,[v],st); ts.append(r.t)
+    yield st,B(z3.Or(*ts) if len(ts)>1 else ts[0]); return
   tag=type_tag(v,st)
   res=False
   for nm in names:
